@@ -1,7 +1,6 @@
 package sim
 
 import (
-	"errors"
 	"fmt"
 	"strings"
 
@@ -45,6 +44,7 @@ type WorldSpec struct {
 	Choices [][]int // Choices[id][occurrence]
 	Pooled  []bool  // Pooled[k]: k-th call() uses Acquire/Release
 	Repeat  []int   // Repeat[k]: k-th call() invokes this many extra times (results discarded) before the real one — exercises re-use of one handle
+	ObjFaults []ObjFault
 	// DowngradePanics makes every panic kind behave as FGoErr with the same text
 	// (the error-returning twin of a panicking world).
 	DowngradePanics bool
@@ -87,7 +87,8 @@ type World struct {
 	RC      *RunCtx
 	Globals ugo.Map
 	// Fired lists the faults that actually fired, in order.
-	Fired []FaultAt
+	Fired    []FaultAt
+	FiredObj []ObjFault
 	// OnCall, when set, is invoked at the start of every host call (used by
 	// engines that want to act "inside a callback").
 	OnCall func(name string, c ugo.Call)
@@ -106,6 +107,7 @@ func NewWorld(spec *WorldSpec, rc *RunCtx) *World {
 		"choose": &ugo.Function{Name: "choose", ValueEx: w.fnChoose},
 		"call":   &ugo.Function{Name: "call", ValueEx: w.fnCall},
 		"trace":  &ugo.Function{Name: "trace", ValueEx: w.fnTrace},
+		"obj":    &ugo.Function{Name: "obj", ValueEx: w.fnObj},
 		"WID":    ugo.String(spec.Name),
 	}
 	return w
@@ -163,36 +165,20 @@ func (w *World) fnOp(c ugo.Call) (ugo.Object, error) {
 		return ugo.Int(id*1000 + occ), nil
 	}
 	w.Fired = append(w.Fired, FaultAt{id, occ, kind})
-	text := FaultText(id, occ)
-	if kind.IsPanic() && w.Spec.DowngradePanics {
-		if w.RC != nil {
-			w.RC.Fault("downgraded-" + kind.String())
-		}
-		return nil, errors.New(text)
-	}
-	if w.RC != nil {
-		w.RC.Fault(kind.String())
-	}
-	switch kind {
-	case FGoErr:
-		return nil, errors.New(text)
-	case FUgoErr:
-		return nil, &ugo.Error{Name: "HostError", Message: text}
-	case FPanicStr:
-		panic(text)
-	case FPanicErr:
-		panic(errors.New(text))
-	case FPanicRT:
-		var m map[string]int
-		if occ%2 == 0 {
-			m["x"] = 1 // assignment to entry in nil map
-		}
-		var s []int
-		_ = s[id+1] // index out of range
-	case FPanicObj:
-		panic(PanicStruct{id, occ})
+	if err := w.raise(kind, id, occ, true); err != nil {
+		return nil, err
 	}
 	return ugo.Undefined, nil
+}
+
+func (w *World) fnObj(c ugo.Call) (ugo.Object, error) {
+	id := 0
+	if c.Len() > 0 {
+		if v, ok := c.Get(0).(ugo.Int); ok {
+			id = int(v)
+		}
+	}
+	return &HostObj{W: w, ID: id, occ: map[string]int{}}, nil
 }
 
 func (w *World) fnChoose(c ugo.Call) (ugo.Object, error) {
@@ -302,3 +288,6 @@ func itoa(n int) string {
 
 // Prelude is the declaration every generated main script starts with.
 const Prelude = "global (log, op, choose, call, trace, WID)\n"
+
+// PreludeObj additionally declares obj (host objects).
+const PreludeObj = "global (log, op, choose, call, trace, WID, obj)\n"
